@@ -72,11 +72,11 @@ THEOREMS = {
     'C08_history_normal': 'normal form is an invariant of EVERY history whose operands are objects -- also over the operations not covered by C08_history / C08_history_full -- for the ASCII and for any case mapping: every text a step returns is an object',
     'C08_ctor': 'construction from nested parts with ARBITRARY Python arguments (Model/RichTextApi.lean eval: ensure_text, the name / URL checks of Tag / HRef, __check_name, String(*parts)): the expression evaluates without an exception iff it is well typed (syntactic test Arg.wellTyped), and then the object has the class and the string of pairs the expression denotes (a tag name / URL given as a rich text counts as its characters, emph as em) and is in normal form',
     'C08_ctor_nonvacuous': "non-vacuity: Tag(Text('em','ph'), 'a', Tag('emph', <nbsp>), Text('b')) evaluates to Tag('em', 'a', Tag('em', <nbsp>), 'b') with two deprecation warnings; a Tag as tag name / an int as part are refused with the messages of the source; HRef(Symbol) keeps str(url); String('a', String('b')) is a TypeError",
-    'C08_ctor_checks': 'decision logic of the argument checks for every value: ensure_text refuses exactly non-str non-text values, Tag accepts as name exactly str or Text, HRef as URL str or any rich text, String(...) exactly str arguments; __check_name maps emph to em, is idempotent and warns exactly for emph',
+    'C08_ctor_checks': '[model wiring] decision logic of the argument checks for every value: ensure_text refuses exactly non-str non-text values, Tag accepts as name exactly str or Text, HRef as URL str or any rich text, String(...) exactly str arguments; __check_name maps emph to em, is idempotent and warns exactly for emph; that the CODE checks so (and its messages): correspondence op rt_ctor',
     'C08_getitem_key': 'text[key] for ANY key acts on the string of pairs as the Python operation (refinement to Abs.getItemKey for every key: int -> one-pair slice or IndexError; slice -> the Python extended slice s[i:j:k] of the pairs for a String / Symbol, NotImplementedError for a multipart text unless the step is None / 1; step 0 -> ValueError; any other key -> TypeError); a slice with step None / 1 is getSlice, so C08_slice speaks about the public __getitem__',
     'C08_extslice': 'the model of slice.indices + index arithmetic is the Python extended slice for every list, all bounds and every step other than 0: every k-th element of the step-1 slice for k > 0, every |k|-th element of the step-1 slice of the reversed string with mirrored bounds for k < 0; s[::-1] is the reversed string',
     'C08_getitem_key_witness': "witnesses: Text('ab', Tag('em','cd'))[1:3] through the key interface; 'abcdef'[::-1], [4:0:-2], [1::2] on a String agree with the reference pyExtSlice; the same steps on a Text raise NotImplementedError; Symbol[::-1] is the symbol, Symbol[1::2] the empty String",
-    'C08_contains_any': "[model wiring for the str case] `item in text`: with a str it is contains; with any other value a Symbol answers False and every other class raises TypeError",
+    'C08_contains_any': '[model wiring, both cases] containsVal is DEFINED as contains for a str, False for a Symbol and TypeError for every other class with a non-str item; carried by the correspondence check (op rt_contains)',
     'C08_split_refused': "split at a separator String.split refuses ('' -> ValueError, wrong type -> TypeError): raises exactly when the text has a String outside every Protected; otherwise at most one piece (exactly one unless keep_empty_parts=False) that spells the text: protected text and symbols are never split",
     'C08_split_keep_nonempty': 'split(sep, keep_empty_parts=True) never returns an empty list (literal separator, white space, compiled patterns): the branch `if not split_part: continue` of BaseMultipartText.split is dead code',
     'C08_split_refused_nonvacuous': "non-vacuity: Text(<nbsp>, Protected('a b')).split('') is the text itself; Text('a', <nbsp>).split('') raises ValueError, .split(5) TypeError; Text().split('') is [Text()], [] with keep_empty_parts=False",
